@@ -250,6 +250,31 @@ func scenING(s *sched.Sim, cfg Config, res *Result) {
 		{"gql-introspection", `{"query": "{ __schema { queryType { name } } }"}`},
 		{"gql-subscription-over-post", `{"query": "subscription { zz }"}`},
 	}
+	// introspection operations (answered locally by the gateway) in legal but unusual shapes
+	introspection := []struct{ kind, query, vars string }{
+		{"introspection-enum-values-literal", `{ __type(name: "__TypeKind") { name enumValues(includeDeprecated: true) { name isDeprecated } } }`, ``},
+		{"introspection-enum-values-variable-true", `query($d: Boolean) { __type(name: "__TypeKind") { enumValues(includeDeprecated: $d) { name } } }`, `{"d": true}`},
+		{"introspection-enum-values-variable-omitted", `query($d: Boolean) { __type(name: "__TypeKind") { enumValues(includeDeprecated: $d) { name } } }`, ``},
+		{"introspection-enum-values-variable-null", `query($d: Boolean) { __type(name: "__DirectiveLocation") { enumValues(includeDeprecated: $d) { name } } }`, `{"d": null}`},
+		{"introspection-enum-values-null-literal", `{ __type(name: "__TypeKind") { enumValues(includeDeprecated: null) { name } } }`, ``},
+		{"introspection-fields-variable-omitted", `query($d: Boolean) { __type(name: "Query") { fields(includeDeprecated: $d) { name args { name defaultValue type { kind name ofType { kind name } } } } } }`, ``},
+		{"introspection-fields-variable-null", `query($d: Boolean) { __schema { types { name fields(includeDeprecated: $d) { name } enumValues(includeDeprecated: $d) { name } inputFields { name } interfaces { name } possibleTypes { name } } } }`, `{"d": null}`},
+		{"introspection-type-by-variable", `query($n: String!) { __type(name: $n) { kind name description } }`, `{"n": "Query"}`},
+		{"introspection-type-unknown", `{ __type(name: "ZzNoSuchType") { kind name } }`, ``},
+		{"introspection-type-variable-missing", `query($n: String!) { __type(name: $n) { name } }`, ``},
+		{"introspection-aliases-fragments", `query { s: __schema { q: queryType { ...T } mutationType { ...T } subscriptionType { ...T } directives { name locations args { ...V } } } } fragment T on __Type { kind name ofType { kind name } } fragment V on __InputValue { name defaultValue type { ...T } }`, ``},
+		{"introspection-typename-inside", `{ __schema { __typename types { __typename name } } }`, ``},
+		{"introspection-mixed-with-data", `{ __schema { queryType { name } } ` + strings.TrimPrefix(strings.TrimSpace(rootFieldOnly(valid.Text)), "{") + ``, ``},
+	}
+	for _, in := range introspection {
+		qb, _ := json.Marshal(in.query)
+		body := `{"query": ` + string(qb)
+		if in.vars != "" {
+			body += `, "variables": ` + in.vars
+		}
+		body += `}`
+		addRaw(in.kind, "application/json", body)
+	}
 	for _, js := range jsonShapes {
 		ct := []string{"application/json", "application/json", "text/plain", "", "application/json; charset=utf-8"}[s.T.Choose(5)]
 		addRaw(js.kind, ct, js.body)
@@ -483,4 +508,14 @@ func docInvalid(schema *ast.Schema, r clientReq) string {
 		return "operation cannot be selected"
 	}
 	return ""
+}
+
+// rootFieldOnly turns a generated anonymous/named query into its bare selection set text when
+// that is trivially possible (no variables, no fragments); otherwise "{ __typename }".
+func rootFieldOnly(text string) string {
+	t := strings.TrimSpace(text)
+	if strings.HasPrefix(t, "{") && !strings.Contains(t, "fragment ") && !strings.Contains(t, "\n") {
+		return t
+	}
+	return "{ __typename }"
 }
